@@ -317,6 +317,8 @@ func runOp(ctx context.Context, inst *world.Instance, op wOp, pre *world.View) (
 		spec := world.DeploySpec{Pod: "p", Count: op.Count, Strategy: op.Strategy, Bind: bind, CPU: cpu, Memory: mem, Limit: op.Limit}
 		if len(op.Include) > 0 {
 			spec.Filter = &coretypes.NodeFilter{Podname: "p", Includes: op.Include}
+		} else if strings.HasPrefix(op.Node, "exclude-") {
+			spec.Filter = &coretypes.NodeFilter{Podname: "p", Excludes: []string{strings.TrimPrefix(op.Node, "exclude-")}}
 		}
 		ch, err := inst.Cal.CreateWorkload(ctx, spec.Options())
 		if err != nil {
